@@ -645,22 +645,24 @@ def build_cases(tier, rng, widen=1):
     cases = [dict(gen="inventory", p={}, block="enum")]
     cases += exhaustive_seq_block(tier, rng)
     cases += exhaustive_aligned_block(tier)
-    cases += [rand_seq(rng) for _ in range(n(500, 4000))]
-    cases += [rand_view(rng) for _ in range(n(150, 1000))]
-    cases += [rand_aln(rng) for _ in range(n(300, 2500))]
-    cases += [rand_aligned(rng) for _ in range(n(200, 1500))]
-    cases += [rand_imap(rng) for _ in range(n(200, 1500))]
+    cases += [rand_seq(rng) for _ in range(n(500, 8000))]
+    cases += [rand_view(rng) for _ in range(n(150, 2000))]
+    cases += [rand_aln(rng) for _ in range(n(300, 5000))]
+    cases += [rand_aligned(rng) for _ in range(n(200, 3000))]
+    cases += [rand_imap(rng) for _ in range(n(200, 3000))]
     cases += span_cases()
-    cases += [rand_tree(rng) for _ in range(n(150, 1200))]
-    cases += [rand_table(rng) for _ in range(n(200, 1800))]
-    cases += [rand_darr(rng) for _ in range(n(150, 1200))]
+    # nodes created by an operation have no name: their edge attributes share the key None in the rich dict
+    cases += [dict(gen="tree", p=dict(newick="((a:1,b:1,c:1)n1:2,d:2);", ops=[["bifurcating"]]), block="enum")]
+    cases += [rand_tree(rng) for _ in range(n(150, 2400))]
+    cases += [rand_table(rng) for _ in range(n(200, 3600))]
+    cases += [rand_darr(rng) for _ in range(n(150, 2400))]
     cases += alpha_cases(tier)
     cases += sm_cases(tier)
     cases += lf_cases(tier, rng)
     cases += result_cases(tier)
-    cases += [rand_db(rng) for _ in range(n(60, 600))]
-    cases += [rand_seq_db(rng) for _ in range(n(150, 1200))]
-    cases += misc_cases(rng, n(60, 400))
+    cases += [rand_db(rng) for _ in range(n(60, 1200))]
+    cases += [rand_seq_db(rng) for _ in range(n(150, 2400))]
+    cases += misc_cases(rng, n(60, 800))
     return cases
 
 
@@ -794,7 +796,12 @@ def compare_case(rep, c, r, stats):
             ro_n = dict(ro_n, cls=obs.get("cls"))   # a TreeNode reads back as a PhyloNode (a superset of its interface)
         d = same(obs, ro_n)
         if d:
-            if c["gen"] == "view" and field_of(d) in ("pstart", "pstop"):
+            if obs.get("kind") == "tree" and "null" in obs.get("edges", {}):
+                key = "tree:PhyloNode:json:unnamed-node" if family == "json" else f"tree:PhyloNode:{rc}:unnamed-node"
+                if key in reported:
+                    continue
+                reported.add(key)
+            elif c["gen"] == "view" and field_of(d) in ("pstart", "pstop"):
                 # the bare view's position: Properties/C10.v seqview_position_refuted
                 key = "view:SeqView:json:position"
             else:
